@@ -318,12 +318,16 @@ Kinds == {"Reload", "Sign", "Abort", "Subset"}
          \cup (IF Paths # {} THEN {"SignKDD"} ELSE {})
          \cup (IF variant = "seeded" THEN {"Seeded"} ELSE {})
 
+(* the message of a session that aborts plays no role in the model (it only selects the digest q+m  *)
+(* of refuse_digest): one value is enough                                                         *)
+AbortMsgs == {CHOOSE m \in Msgs : \A x \in Msgs : m <= x}
+
 Do(kd) ==
   \/ kd = "Reload"  /\ \E p \in Parties : DoReload(p)
   \/ kd = "Sign"    /\ \E L \in Listings, m \in Msgs : DoSign(L, m, 0, 0)
   \/ kd = "SignKDD" /\ \E L \in Listings, m \in Msgs, d \in Paths : DoSign(L, m, d, 0)
   \/ kd = "Seeded"  /\ \E L \in Listings, m \in Msgs : DoSign(L, m, 0, 1)
-  \/ kd = "Abort"   /\ \E L \in Listings, m \in Msgs, d \in {0} \cup Paths, how \in Hows : DoAbort(L, m, d, how)
+  \/ kd = "Abort"   /\ \E L \in Listings, m \in AbortMsgs, d \in {0} \cup Paths, how \in Hows : DoAbort(L, m, d, how)
   \/ kd = "Subset"  /\ \E L \in Listings : DoSubset(L)
 
 Pick ==
